@@ -98,10 +98,21 @@ impl Tree {
 		self.core.inner.rotate_memtable()
 	}
 
+	/// What the background tasks do when their work fails: record the sticky
+	/// background error and release stalled writers.
+	fn verif_report<T>(&self, r: Result<T>, reason: crate::error::BackgroundErrorReason) -> Result<T> {
+		if let Err(e) = &r {
+			self.core.inner.error_handler().set_error(e.clone(), reason);
+			self.core.write_stall.signal_shutdown();
+		}
+		r
+	}
+
 	/// Flushes the oldest immutable memtable. Returns whether one was flushed.
 	pub fn verif_flush_one(&self) -> Result<bool> {
 		let had = self.core.inner.has_pending_immutables();
-		self.core.inner.compact_memtable()?;
+		let r = self.core.inner.compact_memtable();
+		self.verif_report(r, crate::error::BackgroundErrorReason::MemtablaFlush)?;
 		self.core.write_stall.signal_work_done();
 		Ok(had)
 	}
@@ -116,7 +127,8 @@ impl Tree {
 				self.core.inner.rotate_memtable()?;
 			}
 		}
-		self.core.inner.flush_all_immutables_sync()?;
+		let r = self.core.inner.flush_all_immutables_sync();
+		self.verif_report(r, crate::error::BackgroundErrorReason::MemtablaFlush)?;
 		self.core.write_stall.signal_work_done();
 		Ok(())
 	}
@@ -127,7 +139,8 @@ impl Tree {
 		let before = self.verif_table_ids();
 		let strategy: Arc<dyn CompactionStrategy> =
 			Arc::new(Strategy::from_options(Arc::clone(&self.core.inner.opts)));
-		self.core.inner.compact(strategy)?;
+		let r = self.core.inner.compact(strategy);
+		self.verif_report(r, crate::error::BackgroundErrorReason::Compaction)?;
 		self.core.write_stall.signal_work_done();
 		Ok(before != self.verif_table_ids())
 	}
